@@ -32,6 +32,7 @@ import (
 	"encoding/json"
 	"fmt"
 	"io"
+	"math/big"
 	"net"
 	"net/http"
 	"net/http/httptest"
@@ -504,6 +505,15 @@ type originRT struct {
 	// 2 unknown length (ContentLength -1, identity: ends with the connection),
 	// 3 ContentLength 0 with a non-empty body (what proxyutil.NewResponse(code, body, req) builds)
 	framing int
+	// virtual resource: a Range request "bytes=<start>-" is answered 206 with exactly
+	// the bytes of total and "Content-Range: bytes <start>-<start+len-1>/<tot>"
+	// (start may be any int64 magnitude; tot a number or "*"); cr, when set, is sent
+	// as the Content-Range verbatim (malformed values)
+	virt  bool
+	start string
+	tot   string
+	cr    string
+	sent  string // the Content-Range that was sent
 }
 
 func (o *originRT) RoundTrip(req *http.Request) (*http.Response, error) {
@@ -512,7 +522,21 @@ func (o *originRT) RoundTrip(req *http.Request) (*http.Response, error) {
 		Header: http.Header{"Content-Type": {"application/octet-stream"}}, Request: req,
 	}
 	body := o.total
-	if rg := req.Header.Get("Range"); rg != "" {
+	if o.virt {
+		res.StatusCode = 206
+		st, _ := new(big.Int).SetString(o.start, 10)
+		end := new(big.Int).Add(st, big.NewInt(int64(len(body))-1))
+		tot := o.tot
+		if tot == "" {
+			tot = new(big.Int).Add(end, big.NewInt(1+1000)).String()
+		}
+		cr := fmt.Sprintf("bytes %s-%s/%s", st.String(), end.String(), tot)
+		if o.cr != "" {
+			cr = o.cr
+		}
+		res.Header.Set("Content-Range", cr)
+		o.sent = cr
+	} else if rg := req.Header.Get("Range"); rg != "" {
 		var s int
 		if _, err := fmt.Sscanf(rg, "bytes=%d-", &s); err == nil && s >= 0 && s < len(o.total) {
 			body = o.total[s:]
@@ -581,7 +605,17 @@ func runIntegration(in []string) (out []string) {
 
 	px := martian.NewProxy()
 	framing, _ := strconv.Atoi(p["ch"])
-	px.SetRoundTripper(&originRT{total: bodyBytes(seed, n), framing: framing})
+	org := &originRT{total: bodyBytes(seed, n), framing: framing}
+	if p["virt"] == "1" {
+		org.virt, org.start, org.tot = true, p["rs"], p["tot"]
+		if org.tot == "star" {
+			org.tot = "*"
+		}
+		if p["cr"] != "" {
+			org.cr = string(hx.MustUnHex(p["cr"]))
+		}
+	}
+	px.SetRoundTripper(org)
 	px.SetTimeout(5 * time.Second)
 	go px.Serve(tsl)
 	defer func() {
@@ -595,7 +629,9 @@ func runIntegration(in []string) (out []string) {
 	}
 	defer conn.Close()
 	req, _ := http.NewRequest("GET", url, nil)
-	if rs >= 0 {
+	if p["virt"] == "1" {
+		req.Header.Set("Range", "bytes="+p["rs"]+"-")
+	} else if rs >= 0 {
 		req.Header.Set("Range", fmt.Sprintf("bytes=%d-", rs))
 	}
 	req.Header.Set("Connection", "close")
@@ -622,10 +658,15 @@ func runIntegration(in []string) (out []string) {
 		_ = httputil.DumpResponse
 	}
 	served := bodyBytes(seed, n)
-	if rs >= 0 && rs < n {
+	if p["virt"] != "1" && rs >= 0 && rs < n {
 		served = served[rs:]
 	}
-	out = append(out, fmt.Sprintf("hs%d", status), fmt.Sprintf("hl%d", hl), eof, fmt.Sprintf("el%d", us(el)), "B"+hx.Hex(served), hx.Hex(got))
+	// the Content-Range the origin sent (empty: none), for the model's GetRangeStart
+	crSent := org.sent
+	if p["virt"] != "1" && rs >= 0 && rs < n {
+		crSent = fmt.Sprintf("bytes %d-%d/%d", rs, n-1, n)
+	}
+	out = append(out, fmt.Sprintf("hs%d", status), fmt.Sprintf("hl%d", hl), eof, fmt.Sprintf("el%d", us(el)), "CR"+hx.HexS(crSent), "B"+hx.Hex(served), hx.Hex(got))
 	return out
 }
 
